@@ -6,7 +6,8 @@
 //   h_gsl --list                         registration data {name,type,nargs} per function
 //   h_gsl <calls.txt> <out.ndjson> [timeout_s [timeout_after_hangs_ms]]
 //     after two Hang records of one function its remaining calls get the second, shorter
-//     limit (a run over a function that loops on many inputs stays bounded)
+//     limit (a run over a function that loops on many inputs stays bounded); after twelve
+//     its remaining calls are not made and get a Skipped record each
 // call line:  id name mode dig nargs a1 .. an
 //   mode v = value only, d = first derivatives, h = first and second
 //   dig  '-' = NULL, else a string of 0/1 (1 = argument constant, partials not needed)
@@ -180,6 +181,11 @@ int main(int argc, char **argv) {
       setrlimit(RLIMIT_AS, &rl);
       for (size_t i = next; i < calls.size(); ++i) {
         *cur = (long)i;
+        if (hangs[calls[i].fn] >= 12) {
+          fprintf(outf, "{\"e\":\"Skipped\",\"id\":%ld}\n", calls[i].id);
+          fflush(outf);
+          continue;
+        }
         int ms = hangs[calls[i].fn] >= 2 ? tmo2_ms : tmo * 1000;
         struct itimerval it = {{0, 0}, {ms / 1000, (ms % 1000) * 1000}};
         setitimer(ITIMER_REAL, &it, nullptr);
